@@ -49,10 +49,13 @@ def gen_repo(r, portable=False, with_dist=None, ignored_dirs=True, complete=Fals
             if r.random() < 0.6:
                 mkdir(d + '/files', 'files')
                 for k in range(r.randint(0, 3)):
-                    mkfile(f'{d}/files/' + (r.choice(['fix.patch', 'init.d', 'conf', 'a b.patch', 'p\\q'] if not portable else ['fix.patch', 'init.d', 'conf', 'x.diff'])))
+                    mkfile(f'{d}/files/' + (r.choice(['fix.patch', 'init.d', 'conf', 'a b.patch', 'p\\q', 'snapshot-1.ebuild', 'metadata.xml'] if not portable else ['fix.patch', 'init.d', 'conf', 'x.diff'])))
                 if r.random() < 0.3:
                     mkdir(d + '/files/sub', 'files')
                     mkfile(d + '/files/sub/nested.patch')
+                    if not portable and r.random() < 0.4:
+                        # names that mean something directly inside the package directory, met below files/
+                        mkfile(d + '/files/sub/' + r.choice(['old-0.ebuild', 'metadata.xml', 'ChangeLog']))
             if r.random() < 0.2:
                 # now and then a file larger than the 64 KiB / 1 MiB buffering thresholds of the hashing code and of the scripts
                 big = r.random() < 0.2
